@@ -82,6 +82,55 @@ Proof.
       * apply Hen'; [|left; reflexivity]. intros e He'. right. apply in_or_app. left. exact He'.
 Qed.
 
+Lemma existsb_firstn_all : forall (A : Type) (f : A -> bool) l n, existsb f l = false -> existsb f (firstn n l) = false.
+Proof.
+  intros A f l. induction l as [|a l IH]; intros n H; destruct n; simpl in *; try reflexivity.
+  apply orb_false_iff in H. destruct H as [H1 H2]. rewrite H1. simpl. apply IH. exact H2.
+Qed.
+
+(* the successful run starts with all the `enter` lines: the failing run's transcript is a prefix of it *)
+Lemma enters_S : forall i n, enters i (S n) = EEnter i :: enters (S i) n.
+Proof. reflexivity. Qed.
+
+Lemma ok_events_shape : forall ls k z sel i, ls <> [] -> existsb is_qstmt ls = false ->
+  (forall d, (d < List.length ls)%nat -> sel <> (i + d)%nat) ->
+  exists tail, fst (m_chain k (PInt z) sel i ls) = enters i (List.length ls) ++ tail.
+Proof.
+  induction ls as [|l rest IH]; intros k z sel i Hne Hq Hsel; [congruence|].
+  cbn [m_chain]. assert (Hi : Nat.eqb sel i = false).
+  { apply Nat.eqb_neq. specialize (Hsel 0%nat). simpl in Hsel. intro. apply Hsel; lia. }
+  rewrite Hi. simpl in Hq. apply orb_false_iff in Hq. destruct Hq as [Hl Hq].
+  destruct rest as [|l2 rest2].
+  - exists []. reflexivity.
+  - assert (Hsel' : forall d, (d < List.length (l2 :: rest2))%nat -> sel <> (S i + d)%nat).
+    { intros d Hd. specialize (Hsel (S d)). simpl in *. intro. apply Hsel; lia. }
+    destruct (qmark_ok_l (l2 :: rest2) k z sel (S i)) as (evs & He & _ & _); [discriminate|exact Hq|exact Hsel'|].
+    destruct (IH k z sel (S i)) as (tail & Ht); [discriminate|exact Hq|exact Hsel'|].
+    rewrite He in Ht. cbn [fst] in Ht. rewrite He. rewrite qmark_ok_int. unfold is_qstmt in Hl.
+    change (List.length (l :: l2 :: rest2)) with (S (List.length (l2 :: rest2))). rewrite enters_S.
+    destruct (l_ctx l); try discriminate; simpl fst; rewrite Ht.
+    + exists (tail ++ [EPost i (VInt z)]). rewrite <- app_assoc. reflexivity.
+    + exists (tail ++ [EPost i (VInt z)]). rewrite <- app_assoc. reflexivity.
+    + exists tail. reflexivity.
+    + exists (tail ++ [EPost i (VInt z)]). rewrite <- app_assoc. reflexivity.
+Qed.
+
+Lemma enters_app : forall i a b, enters i (a + b) = enters i a ++ enters (i + a) b.
+Proof. intros. unfold enters. rewrite seq_app, map_app. reflexivity. Qed.
+
+Lemma qmark_err_prefix_l : forall ls k z d i sel0, (d < List.length ls)%nat -> existsb is_qstmt ls = false ->
+  (forall d', (d' < List.length ls)%nat -> sel0 <> (i + d')%nat) ->
+  exists rest, fst (m_chain k (PInt z) sel0 i ls) = fst (m_chain k (PInt z) (i + d) i ls) ++ rest.
+Proof.
+  intros ls k z d i sel0 Hd Hq Hsel.
+  assert (Hne : ls <> []) by (destruct ls; [simpl in Hd; lia|discriminate]).
+  destruct (ok_events_shape ls k z sel0 i Hne Hq Hsel) as (tail & Ht).
+  rewrite Ht. rewrite (qmark_err_l ls k (PInt z) d i Hd).
+  - simpl fst. replace (List.length ls) with (S d + (List.length ls - S d))%nat by lia.
+    rewrite enters_app. rewrite <- app_assoc. eexists. reflexivity.
+  - apply existsb_firstn_all with (n := d) in Hq. exact Hq.
+Qed.
+
 (* ---------------------------------------------------------------- refinement on the conforming fragment *)
 Definition shape (k : rkind) (z : Z) (sel i : nat) (ls : list link) (c : cval) : Prop :=
   (c = mkC (v_ok k) (PInt z) \/ c = mkC (v_ok k) (PInt 100)) \/
